@@ -36,7 +36,7 @@ _SPECS = ["Prim2SF_SF2Prim", "Prim2SF_valid", "SF2Prim_Prim2SF", "abs_spec", "ad
 ALLOWED_AXIOMS |= set(_SPECS) | {"FloatAxioms." + n for n in _SPECS} | {
     "ClassicalDedekindReals.sig_forall_dec", "ClassicalDedekindReals.sig_not_dec",
     "FunctionalExtensionality.functional_extensionality_dep", "Classical_Prop.classic"}
-EXTRA_TARGETS = ["Model/Compare.vo"]
+EXTRA_TARGETS = ["Model/Compare.vo", "Model/ModelDict.vo"]
 
 logging.getLogger().addHandler(logging.NullHandler())   # quiet=False logs; keep stderr clean
 
@@ -1759,6 +1759,79 @@ def molrec_checks(ctx, corr):
 
 
 # ------------------------------------------------------------------------------------------------------
+# compare_molrecs(relative_geoms="align") — oracle only (the aligner itself is C12's subject): a rigid-motion copy of a free
+# record passes, a copy with one coordinate off by 3e-5 fails at atol 1e-6 and passes at 1e-4 (aligned residuals <= 3e-5),
+# and a record that differs in a field other than the geometry never passes, fixed frame or not.
+
+ALIGN_G = [[0.0, 0.0, 0.0], [0.0, 0.0, 2.2], [1.5, 0.3, -1.0], [-1.1, 0.9, -0.7]]
+ALIGN_CHANGES = {"charge": ("molecular_charge", 1.0), "units": ("units", "Angstrom"), "creator": ("provenance", {"creator": "other", "version": "1", "routine": "r"}),
+                 "elem": ("elem", ["C", "O", "H", "He"]), "extra-key": ("comment", "abc")}
+
+
+def molrec_align_case(m):
+    """m = {"fix": none|com|orientation, "change": name|None, "motion": [axis, angle, axis, angle, [shift]], "pert": float,
+            "atol": float, "variant": [...]} -> (expected verdict, observed)"""
+    from qcelemental.testing import compare_molrecs
+
+    def rot(ax, th):
+        c, s_ = math.cos(th), math.sin(th)
+        return np.array({0: [[1, 0, 0], [0, c, -s_], [0, s_, c]], 1: [[c, 0, s_], [0, 1, 0], [-s_, 0, c]], 2: [[c, -s_, 0], [s_, c, 0], [0, 0, 1]]}[ax])
+
+    def rec(g):
+        return {"geom": np.array(g, dtype=float).reshape(-1), "elem": np.array(["C", "O", "H", "H"]), "fix_com": m["fix"] == "com",
+                "fix_orientation": m["fix"] == "orientation", "molecular_charge": 0.0, "units": "Bohr",
+                "provenance": {"creator": "x", "version": "1", "routine": "r"}}
+    G = np.array(ALIGN_G)
+    C = G.copy()
+    if m["fix"] == "none":
+        a1, t1, a2, t2, sh = m["motion"]
+        C = G @ rot(a1, t1) @ rot(a2, t2) + np.array(sh)
+    C[2, 1] += m["pert"]
+    e, c = rec(G), rec(C)
+    if m["change"]:
+        k, v = ALIGN_CHANGES[m["change"]]
+        c[k] = np.array(v) if k == "elem" else v
+    expect = (not m["change"]) and (m["pert"] == 0 or m["pert"] < m["atol"] / 3)
+    quiet, rm, hk = m["variant"]
+    kw = {"return_message": rm}
+    cap = []
+    if hk:
+        kw["return_handler"] = lambda pf, label, msg, rm_, quiet_: cap.append(pf) or "handled"
+    try:
+        with warnings.catch_warnings():
+            warnings.simplefilter("ignore")
+            r = compare_molrecs(e, c, "lbl", atol=m["atol"], relative_geoms="align", verbose=(0 if quiet else 1), **kw)
+        got = cap[0] if hk else (r[0] if rm else r)
+        got = bool(got) if isinstance(got, (bool, np.bool_)) else "returned " + type(got).__name__
+    except Exception as ex:  # noqa
+        got = "raised " + type(ex).__name__
+    return expect, got
+
+
+def molrec_align_checks(ctx, corr):
+    rng = ctx.rng
+    for i in range(400 if ctx.thorough else 60):
+        fix = rng.choice(["none", "none", "com", "orientation"])
+        r = rng.random()
+        m = {"fix": fix, "change": None, "pert": 0.0, "atol": 1e-6, "variant": list(rng.choice(VARIANTS)),
+             "motion": [rng.randrange(3), rng.uniform(-3, 3), rng.randrange(3), rng.uniform(-3, 3), [rng.uniform(-5, 5) for _ in range(3)]]}
+        if r < 0.45:
+            m["change"] = rng.choice(sorted(ALIGN_CHANGES))
+        elif r < 0.7 and fix == "none":
+            m["pert"], m["atol"] = 3e-5, rng.choice([1e-6, 1e-4])
+        expect, got = molrec_align_case(m)
+        corr.count("molrecs-align")
+        corr.hit(f"molrecs_align_{fix}_{'changed' if m['change'] else 'perturbed' if m['pert'] else 'copy'}_{got}")
+        if got is not expect:
+            corr.failures.append({"stream": "molrecs-align", "case": {"molrecs_align": m},
+                                  "what": f"compare_molrecs(relative_geoms='align', atol={m['atol']}): the property requires {expect} for a "
+                                          + ("rigid-motion copy" if fix == "none" else f"copy in the same frame (fix_{fix})")
+                                          + (f" whose {ALIGN_CHANGES[m['change']][0]} differs" if m["change"] else "")
+                                          + (f" with one coordinate off by {m['pert']}" if m["pert"] else "") + f", the implementation gave {got}",
+                                  "observed": str(got), "expected": expect})
+
+
+# ------------------------------------------------------------------------------------------------------
 
 def sequence_run(qs, rng=None, variants=None):
     """the queries of one sequence on ONE pair of live objects, in order -> (list of outcomes, variants used)"""
@@ -1795,6 +1868,514 @@ def sequence_checks(ctx, corr):
         if bad:
             corr.failures.append({"stream": "oracle-" + q["fn"], "case": {"query": q}, "what": "after the whole run: " + bad["what"],
                                   "observed": list(out), "expected": bad.get("want"), "tag": bad.get("tag")})
+
+
+# ------------------------------------------------------------------------------------------------------
+# model history: serialisation / copying / comparison calls on ProtoModels (ANY model, any include/exclude/skip options)
+# first, then comparisons of models that differ exactly in a field those calls named (and in another one). The verdict
+# is a function of the two models and the options only: judged by the property (built-in differences, the tree oracle
+# for free-form models) and against the same comparisons in a fresh interpreter that saw no history at all.
+
+_MOL = {"symbols": ["He", "He"], "geometry": [0.0, 0.0, 0.0, 0.0, 0.0, 3.0], "name": "m", "comment": "c", "fix_com": False}
+_MOL2 = dict(_MOL, geometry=[0.0, 0.0, 0.0, 0.0, 0.0, 3.5])
+_AI = {"molecule": _MOL, "driver": "energy", "model": {"method": "hf", "basis": "sto-3g"}, "keywords": {"k": 1}, "id": "x",
+       "extras": {"e": 1}}
+_PROV = {"creator": "prog", "version": "1.0", "routine": "r"}
+_AR = dict(_AI, properties={"return_energy": -1.0}, return_result=-1.0, success=True, provenance=_PROV, stdout="out")
+# name -> (module, class, base keywords, {field: other value}, {field: [(forgive entry below the field, covers the difference)]})
+REAL_MODELS = {
+    "Provenance": ("qcelemental.models", "Provenance", _PROV, {"creator": "other", "version": "2.0", "routine": "q"}, {}),
+    "Model": ("qcelemental.models.common_models", "Model", {"method": "hf", "basis": "sto-3g"}, {"method": "mp2", "basis": "cc-pvdz"}, {}),
+    "Molecule": ("qcelemental.models", "Molecule", _MOL,
+                 {"geometry": _MOL2["geometry"], "symbols": ["He", "Ne"], "name": "other", "comment": "d", "fix_com": True}, {}),
+    "AtomicInput": ("qcelemental.models", "AtomicInput", _AI,
+                    {"molecule": _MOL2, "driver": "gradient", "model": {"method": "mp2", "basis": "sto-3g"}, "keywords": {"k": 2},
+                     "id": "y", "extras": {"e": 2}},
+                    {"molecule": [("molecule.geometry", True), ("molecule.symbols", False), ("molecule.geo", False)],
+                     "model": [("model.method", True), ("model.basis", False)], "keywords": [("keywords.k", True), ("keywords.kk", False)]}),
+    "AtomicResult": ("qcelemental.models", "AtomicResult", _AR,
+                     {"return_result": -1.5, "properties": {"return_energy": -1.5}, "success": False, "stdout": "other", "molecule": _MOL2,
+                      "provenance": dict(_PROV, version="2.0")},
+                     {"properties": [("properties.return_energy", True), ("properties.return", False)],
+                      "provenance": [("provenance.version", True), ("provenance.creator", False)]}),
+    "ComputeError": ("qcelemental.models", "ComputeError", {"error_type": "t", "error_message": "m", "extras": {"e": 1}},
+                     {"error_type": "u", "error_message": "n", "extras": {"e": 2}}, {"extras": [("extras.e", True)]}),
+    "FailedOperation": ("qcelemental.models", "FailedOperation",
+                        {"error": {"error_type": "t", "error_message": "m"}, "input_data": {"a": 1}, "id": "q"},
+                        {"error": {"error_type": "t", "error_message": "n"}, "input_data": {"a": 2}, "id": "r"},
+                        {"error": [("error.error_message", True), ("error.error_type", False)]}),
+}
+ID_KEYS = [k for k in KEYS if k.isidentifier()]
+SER_KW = ["include", "exclude", "exclude_unset", "exclude_defaults", "exclude_none"]
+
+
+def real_build(name, field=None):
+    import importlib
+    mod, cls, base, alts, _ = REAL_MODELS[name]
+    kw = dict(base)
+    if field is not None:
+        kw[field] = alts[field]
+    return getattr(importlib.import_module(mod), cls)(**json_copy(kw))
+
+
+def json_copy(x):
+    import json
+    return json.loads(json.dumps(x))
+
+
+def _hist_target(on):
+    if on[0] == "bag":
+        return _model_cls()(**to_py(on[1]))
+    return real_build(on[1], on[2])
+
+
+def history_op(op):
+    """one earlier call of the public model API; its result is irrelevant, exceptions are swallowed -> a tag for the branch counter"""
+    from qcelemental.testing import compare_recursive
+    try:
+        m = _hist_target(op["on"])
+        kw = {}
+        for k, v in op["kw"].items():
+            if k in ("include", "exclude"):
+                v = (frozenset if op.get("frozen") else set)(v)
+            kw[k] = v
+        call = op["call"]
+        with warnings.catch_warnings():
+            warnings.simplefilter("ignore")
+            if call == "dict":
+                m.dict(**kw)
+            elif call == "json":
+                m.json(**kw)
+            elif call == "serialize":
+                m.serialize(op["enc"], **kw)
+            elif call == "copy":
+                m.copy(**kw)
+            elif call == "compare":
+                other = _hist_target(op["other"])
+                (compare_recursive(m, other, "lbl", **kw) if op.get("fn") else m.compare(other, **kw))
+            elif call == "repr":
+                repr(m), str(m)
+            elif call == "parse":
+                type(m).parse_raw(m.serialize(op["enc"]), encoding=op["enc"])
+            elif call == "schema":
+                type(m).schema()
+            else:
+                raise ValueError(call)
+        return call + "_ok"
+    except Exception as ex:  # noqa
+        return call + "_raised_" + type(ex).__name__
+
+
+def real_probe_run(p):
+    from qcelemental.testing import compare_recursive
+    try:
+        a, b = real_build(p["model"]), real_build(p["model"], p["field"])
+    except Exception as ex:  # noqa
+        return ["Bad", "model construction raised " + type(ex).__name__]
+    if p.get("swap"):
+        a, b = b, a
+    kw = {"quiet": True}
+    if p.get("forgive") is not None:
+        kw["forgive"] = list(p["forgive"])
+    if p.get("rm"):
+        kw["return_message"] = True
+    try:
+        with warnings.catch_warnings():
+            warnings.simplefilter("ignore")
+            if p["entry"] == "compare":
+                r = a.compare(b, **kw)
+            elif p["entry"] == "recursive":
+                r = compare_recursive(a, b, "lbl", **kw)
+            elif p["entry"] == "dict-model":
+                r = compare_recursive(a.dict(), b, "lbl", **kw)
+            else:
+                r = compare_recursive(a, b.dict(), "lbl", **kw)
+    except Exception as ex:  # noqa
+        return ["Raise", type(ex).__name__]
+    v = r[0] if p.get("rm") and isinstance(r, tuple) else r
+    if not isinstance(v, bool):
+        return ["Bad", f"verdict is not a bool: {type(v).__name__}"]
+    return ["Ok", v]
+
+
+def probe_run(p):
+    if "q" in p:
+        return list(impl_run(p["q"], tuple(p.get("variant") or VARIANTS[0])))
+    return real_probe_run(p)
+
+
+def probe_want(p):
+    """the verdict the property requires, or None where it does not speak"""
+    if "q" in p:
+        try:
+            return spec_rec(p["q"])[0]
+        except Abstain:
+            return None
+    return p["want"]
+
+
+def shared_state():
+    """the class-level exclude set every ProtoModel subclass inherits (empty as the class statement makes it)"""
+    from qcelemental.models.basemodels import ProtoModel
+    return sorted(str(x) for x in ProtoModel.__config__.serialize_default_excludes)
+
+
+def history_case_run(case, with_history=True):
+    tags = [history_op(op) for op in case["history"]] if with_history else []
+    return [probe_run(p) for p in case["probes"]] + [["State", shared_state()]], tags
+
+
+def _fresh_main():
+    """entry point of the fresh interpreter: JSON {"cases": [...], "history": bool} on stdin -> outcomes per case per probe"""
+    import json
+    import sys
+    logging.disable(logging.CRITICAL)
+    req = json.load(sys.stdin)
+    if "dict_kwargs" in req:
+        out = dict_kwargs_failure(req["dict_kwargs"])
+    else:
+        out = [history_case_run(c, req["history"])[0] for c in req["cases"]]
+    sys.stdout.write("\n@@RESULT@@" + json.dumps(out))
+
+
+def fresh_run(cases, with_history, req=None):
+    """the probes of the cases in a NEW interpreter (same sys.path), with or without their history calls"""
+    import json
+    import subprocess
+    import sys
+    r = subprocess.run([sys.executable, "-c", "from harness.props import c19; c19._fresh_main()"],
+                       input=json.dumps(req or {"cases": cases, "history": with_history}), capture_output=True, text=True, timeout=600)
+    if "@@RESULT@@" not in r.stdout:
+        raise RuntimeError("fresh interpreter failed: " + (r.stderr or r.stdout)[-1500:])
+    return json.loads(r.stdout.split("@@RESULT@@")[-1])
+
+
+def _name_sets(rng, fields, f, g):
+    """include / exclude sets around the field that will differ: it alone, with others, the others only, everything else"""
+    rest = [x for x in fields if x != f]
+    pick = rng.random()
+    if pick < 0.4:
+        return [f]
+    if pick < 0.6:
+        return sorted({f, g} if g else {f})
+    if pick < 0.75:
+        return sorted(rng.sample(rest, min(len(rest), rng.choice([1, 2])))) or [f]
+    if pick < 0.9:
+        return sorted(rest) or [f]
+    return sorted(set(rng.sample(list(fields), min(len(fields), 2))) | {"nosuchfield"})
+
+
+def _gen_history(rng, fields, f, g, targets):
+    ops = []
+    for _ in range(rng.choice([1, 1, 2, 3])):
+        on = rng.choice(targets)
+        r = rng.random()
+        kw = {}
+        if rng.random() < 0.75:
+            kw["exclude"] = _name_sets(rng, fields, f, g)
+        if rng.random() < 0.3:
+            kw["include"] = _name_sets(rng, fields, f, g)
+        for k in ("exclude_unset", "exclude_defaults", "exclude_none"):
+            if rng.random() < 0.15:
+                kw[k] = True
+        op = {"on": on, "frozen": rng.random() < 0.15}
+        if r < 0.3:
+            op["call"] = "dict"
+            if rng.random() < 0.2:
+                kw["by_alias"] = True
+            if rng.random() < 0.2:
+                kw["encoding"] = "json"
+        elif r < 0.45:
+            op["call"] = "json"
+        elif r < 0.65:
+            op["call"], op["enc"] = "serialize", rng.choice(["json", "json", "msgpack-ext", "json-ext", "msgpack"])
+        elif r < 0.75:
+            op["call"] = "copy"
+            kw = {k: v for k, v in kw.items() if k in ("include", "exclude")}
+            if rng.random() < 0.3:
+                kw["deep"] = True
+        elif r < 0.9:
+            op["call"], op["other"], op["fn"] = "compare", rng.choice(targets), rng.random() < 0.4
+            kw = {"quiet": True}
+            if rng.random() < 0.8:
+                kw["forgive"] = _name_sets(rng, fields, f, g)
+            if rng.random() < 0.4:
+                kw["equal_phase"] = rng.choice([True, _name_sets(rng, fields, f, g)])
+        else:
+            op["call"] = rng.choice(["repr", "parse", "schema"])
+            op["enc"] = rng.choice(["json", "msgpack-ext"])
+            kw = {}
+        op["kw"] = kw
+        ops.append(op)
+    return ops
+
+
+def _bag_with(rng, key, g):
+    """a free-form model holding a field of the given name (history target of another class)"""
+    ks = [key] + rng.sample([k for k in ID_KEYS if k != key], rng.choice([0, 1, 2]))
+    return ["bag", D([(k, g.tree(rng.choice([0, 1]))) for k in ks])]
+
+
+def gen_model_history(ctx, n):
+    rng = ctx.rng
+    cases = []
+    names = sorted(REAL_MODELS)
+    for _ in range(n):
+        g = TreeGen(rng, rng.choice([1e-9, 1e-6, 1e-4]), 1e-16)
+        if rng.random() < 0.6:
+            name = rng.choice(names)
+            _, _, base, alts, nested = REAL_MODELS[name]
+            fields = sorted(base)
+            f = rng.choice(sorted(alts))
+            others = [x for x in sorted(alts) if x != f]
+            gfield = rng.choice(others) if others else None
+            other_cls = rng.choice(names)
+            targets = [["real", name, None], ["real", name, f], ["real", other_cls, None], _bag_with(rng, f, g)]
+            if gfield:
+                targets.append(["real", name, gfield])
+            entries = ["recursive", "dict-model", "model-dict"] + (["compare", "compare"] if name != "Molecule" else [])
+            def P(field, forgive, want):
+                return {"model": name, "field": field, "entry": rng.choice(entries), "forgive": forgive, "swap": rng.random() < 0.3,
+                        "rm": rng.random() < 0.3, "want": want}
+            probes = [P(f, None, False), P(None, None, True), P(f, [f], True)]
+            if gfield:
+                probes += [P(gfield, None, False), P(gfield, [f], False), P(f, [gfield], False)]
+            for entry, covers in nested.get(f, []):
+                probes.append(P(f, [entry], covers))
+            probes.append(P(None, [f], True))
+            rng.shuffle(probes)
+            probes = probes[:rng.choice([3, 4, 5])]
+        else:
+            ks = rng.sample(ID_KEYS, rng.choice([2, 3, 4]))
+            e = D([(k, g.tree(rng.choice([0, 1, 2]))) for k in ks])
+            f = rng.choice(ks)
+            gfield = rng.choice([k for k in ks if k != f])
+            fields = ks
+
+            def changed(t, key):
+                pairs = []
+                for k, v in t[1]:
+                    if k != key:
+                        pairs.append([k, v])
+                        continue
+                    r = rng.random()
+                    if r < 0.15:
+                        continue                                    # the key is missing on one side
+                    for _ in range(6):
+                        v2 = g.mutate(v, 0.7, False)
+                        if v2 != v:
+                            break
+                    else:
+                        v2 = F(12345.0)
+                    pairs.append([k, v2])
+                return ["dict", pairs]
+            c, c2 = changed(e, f), changed(e, gfield)
+            atol = g.atol
+            other_cls = rng.choice(names)
+            targets = [["bag", e], ["bag", c], _bag_with(rng, f, g), ["real", other_cls, None]]
+
+            def Q(a, b, **kw):
+                return {"q": QR(a, b, via="model", atol=atol, rtol=1e-16, **kw), "variant": list(rng.choice(VARIANTS))}
+            probes = [Q(e, c), Q(c, e), Q(e, e), Q(e, c, forgive=[f]), Q(e, c2), Q(e, c2, forgive=[f]), Q(e, c, forgive=[gfield]),
+                      Q(e, c, equal_phase=True), Q(e, c, equal_phase=[f])]
+            probes = probes[:2] + rng.sample(probes[2:], rng.choice([2, 3]))
+        cases.append(json_copy({"history": _gen_history(rng, fields, f, gfield, targets), "probes": probes}))
+    return cases
+
+
+def history_failure(case, outs, base, j0=None):
+    """first probe whose verdict is not the property's / not the fresh interpreter's -> (index, text) or None"""
+    for j, (p, o) in enumerate(zip(case["probes"], outs)):
+        if j0 is not None and j != j0:
+            continue
+        want = probe_want(p)
+        if want is not None and o != ["Ok", want]:
+            return j, f"the property requires {want}, the implementation gave {o}"
+        if o[0] == "Bad":
+            return j, o[1]
+        if base is not None and o != base[j]:
+            return j, f"the implementation gave {o}, the same call in a fresh interpreter (no earlier calls) {base[j]}"
+    if outs[-1][0] == "State" and outs[-1][1] and j0 is None:
+        return None, f"ProtoModel.Config.serialize_default_excludes (one set shared by every model class) was left as {outs[-1][1]}"
+    return None
+
+
+def _history_text(case, j):
+    p = case["probes"][j] if j is not None else None
+    ops = "; ".join("%s.%s(%s)" % (op["on"][1] if op["on"][0] == "real" else "Bag", op["call"],
+                                   ", ".join(f"{k}={v!r}" for k, v in sorted(op["kw"].items()))) for op in case["history"])
+    if p is None:
+        probe = "the configuration shared by all models"
+    elif "q" in p:
+        probe = f"Bag(**expected).compare(Bag(**computed), forgive={p['q']['o']['forgive']}, equal_phase={p['q']['o']['equal_phase']})"
+    else:
+        probe = (f"{p['model']} pair differing in {p['field']!r}" if p["field"] else f"two equal {p['model']}s") + \
+            f" through {p['entry']} (forgive={p['forgive']})"
+    return f"after [{ops}]: {probe}"
+
+
+def model_history_checks(ctx, corr):
+    """runs LAST in the process (its history calls must not precede the other streams' cases, whose replays are single calls)"""
+    cases = gen_model_history(ctx, 1500 if ctx.thorough else 160)
+    try:
+        base = fresh_run(cases, False)
+    except Exception as ex:  # noqa
+        corr.errors.append("model-history: " + str(ex)[-1500:])
+        return
+    reported = {"model-history": 0, "model-config-state": 0}
+    for i, case in enumerate(cases):
+        outs, tags = history_case_run(case)
+        corr.count("model-history", len(case["probes"]))
+        for t in tags:
+            corr.hit("history_" + t)
+        for p, o in zip(case["probes"], outs):
+            corr.hit("history_probe_" + ("bag" if "q" in p else p["model"]) + "_" + str(o[1] if o[0] != "Bad" else "bad"))
+            if probe_want(p) is None:
+                corr.hit("history_probe_judged_against_fresh_interpreter_only")
+            if o == ["Ok", False] or ("q" in p and o[0] == "Ok" and p["q"]["e"] != p["q"]["c"]):
+                corr.nontriv({"h": case["history"], "p": p})
+        bad = history_failure(case, outs, base[i])
+        kind = "model-config-state" if bad and bad[0] is None else "model-history"
+        if bad and reported[kind] < 2:
+            reported[kind] += 1
+            j, text = bad
+            # a replay runs this case alone in a new interpreter: keep the case if it fails there too, otherwise hand over
+            # everything this stream called before it (the earlier cases' histories and probes as history)
+            pj = [case["probes"][j]] if j is not None else []
+            bj = [base[i][j]] if j is not None else []
+            rec = {"history": case["history"], "probes": pj}
+            try:
+                for hist in [[op] for op in case["history"][:4]] + [case["history"]]:       # smallest history first
+                    cand = {"history": hist, "probes": pj}
+                    if history_failure(cand, fresh_run([cand], True)[0], bj):
+                        rec = cand
+                        break
+                else:
+                    prior = []
+                    for c in cases[:i]:
+                        prior += c["history"]
+                    rec = {"history": prior + case["history"], "probes": pj}
+            except Exception as ex:  # noqa
+                corr.errors.append("model-history (confirming a failure): " + str(ex)[-800:])
+            corr.failures.append({"stream": kind, "case": {"model_history": rec, "fresh": bj},
+                                  "what": "earlier calls on models leak into later comparisons: " + _history_text(rec, 0 if pj else None) + ": " + text,
+                                  "observed": outs[j] if j is not None else outs[-1], "expected": probe_want(pj[0]) if pj else []})
+
+
+# ------------------------------------------------------------------------------------------------------
+# ProtoModel.dict's keyword handling against Model/ModelDict.v: what reaches pydantic, what stays in the class-level set
+
+_DICT_CLS = {}
+
+
+def _dict_cls(shared, skip, force):
+    key = (tuple(shared), skip, force)
+    if key not in _DICT_CLS:
+        from typing import Optional
+        from qcelemental.models.basemodels import ProtoModel
+        ns = {"__annotations__": {"a": float, "b": Optional[float], "c": Optional[str]}, "b": None, "c": "dflt"}
+        cfg = {"serialize_skip_defaults": skip, "force_skip_defaults": force}
+        if shared:
+            cfg["serialize_default_excludes"] = set(shared)
+        ns["Config"] = type("Config", (ProtoModel.Config,), cfg)
+        ns["__module__"] = __name__
+        _DICT_CLS[key] = type("Rec_%d" % len(_DICT_CLS), (ProtoModel,), ns)
+    return _DICT_CLS[key]
+
+
+def dict_kwargs_run(m):
+    """m = {"how", "kw", "class": {...}, "b_set"} -> what pydantic received / what was left behind / the keys of the result"""
+    import json as _json
+    from qcelemental.models.basemodels import ProtoModel
+    base = [c for c in ProtoModel.__mro__[1:] if "dict" in vars(c)][0]          # pydantic's BaseModel
+    orig = base.dict
+    seen = []
+
+    def spy(self, **kw):
+        seen.append((kw.get("exclude"), kw.get("exclude_unset")))
+        return orig(self, **kw)
+    k = m["class"]
+    cls = _dict_cls(k["serialize_default_excludes"], k["serialize_skip_defaults"], k["force_skip_defaults"])
+    obj = cls(a=1.0, b=2.0) if m["b_set"] else cls(a=1.0)
+    kw = {a: (set(v) if a == "exclude" else v) for a, v in m["kw"].items()}
+    base.dict = spy
+    try:
+        if m["how"] == "dict":
+            keys = list(obj.dict(**kw))
+        else:
+            keys = list(_json.loads(obj.json(**kw) if m["how"] == "json" else obj.serialize("json", **kw)))
+    finally:
+        base.dict = orig
+    if not seen:
+        raise RuntimeError("pydantic's dict was not reached")
+    pex, peu = seen[0]
+    return {"exclude": sorted(pex or []), "exclude_unset": bool(peu), "shared_after": sorted(cls.__config__.serialize_default_excludes),
+            "keys": keys}
+
+
+def dict_kwargs_spec(m):
+    """the same by the documented reading: exclude = the call's names plus the class's default excludes; unset fields are skipped
+    when the class forces it, else when the call says so (serialize forwards only truthy options), else by the class default;
+    the class configuration is not touched"""
+    k = m["class"]
+    ex = set(m["kw"].get("exclude") or []) | set(k["serialize_default_excludes"])
+    eu = m["kw"].get("exclude_unset")
+    if m["how"] != "dict" and not eu:
+        eu = None
+    eu = True if k["force_skip_defaults"] else (k["serialize_skip_defaults"] if eu is None else eu)
+    keys = [f for f, isset in (("a", True), ("b", m["b_set"]), ("c", False)) if f not in ex and (isset or not eu)]
+    return {"exclude": sorted(ex), "exclude_unset": bool(eu), "shared_after": sorted(k["serialize_default_excludes"]), "keys": keys}
+
+
+def dict_kwargs_checks(ctx, corr):
+    rng = ctx.rng
+    copt = lambda v, f: "None" if v is None else f"(Some {f(v)})"
+    cl = lambda xs: clist(sorted(xs), cstr)
+    terms, meta = [], []
+    excludes = [None, [], ["a"], ["b"], ["a", "c"], ["zz"], ["a", "b", "c"]]
+    for shared in ([], ["b"], ["a", "c"]):
+        for skip in (False, True):
+            for force in (False, True):
+                for setb in (False, True):
+                    fs = [("a", True), ("b", setb), ("c", False)]
+                    for ex in excludes:
+                        for eu in (None, False, True):
+                            m = {"how": rng.choice(["dict", "dict", "serialize", "json"]), "kw": {}, "b_set": setb,
+                                 "class": {"serialize_default_excludes": shared, "serialize_skip_defaults": skip, "force_skip_defaults": force}}
+                            if ex is not None:
+                                m["kw"]["exclude"] = list(ex)
+                            if eu is not None:
+                                m["kw"]["exclude_unset"] = eu
+                            try:
+                                r = dict_kwargs_run(m)
+                            except Exception as ex_:  # noqa
+                                corr.errors.append(f"dict-kwargs: {m['how']}({m['kw']}) raised {type(ex_).__name__}: {ex_}")
+                                continue
+                            kwt = ("{| kw_exclude := %s; kw_exclude_unset := %s |}" % (copt(ex, cl), copt(eu, cbool)))
+                            if m["how"] != "dict":
+                                kwt = "(serialize_kw %s %s)" % (copt(ex, cl), copt(eu, cbool))
+                            terms.append("((%s, {| skip_defaults := %s; force_skip := %s |}, %s, %s), ((%s, %s), %s, %s))" % (
+                                cl(shared), cbool(skip), cbool(force), kwt, clist(fs, lambda f: f"({cstr(f[0])}, {cbool(f[1])})"),
+                                cl(r["exclude"]), cbool(r["exclude_unset"]), cl(r["shared_after"]), cl(r["keys"])))
+                            meta.append((m, r))
+                            corr.count("dict-kwargs")
+                            corr.hit("dict_kwargs_" + m["how"])
+    bad, errors = coqrun.eval_bad_indices("C19_dict", ["QV.Model.Compare", "QV.Model.ModelDict"], "", "check_dict_call", terms, shard=1200)
+    corr.errors.extend(f"dict-kwargs shard {k}: {e}" for k, e in errors)
+    # calls that name fields first: they are the ones that can leave something behind on their own (a replay is a single call)
+    for b in sorted(bad, key=lambda b: (not meta[b][0]["kw"].get("exclude"), b))[:5]:
+        corr.disagreements.append({"stream": "dict-kwargs", "case": {"dict_kwargs": meta[b][0]}, "impl": meta[b][1], "model": "check_dict_call = false"})
+
+
+def dict_kwargs_failure(m):
+    got, want = dict_kwargs_run(m), dict_kwargs_spec(m)
+    if got == want:
+        return None
+    k = m["class"]
+    return {"stream": "dict-kwargs", "case": {"dict_kwargs": m},
+            "what": f"model.{m['how']}({', '.join(f'{a}={v!r}' for a, v in sorted(m['kw'].items()))}) on a ProtoModel subclass with Config {k} "
+                    f"(fields a set, b {'set' if m['b_set'] else 'unset'}, c unset): pydantic must receive / the class must keep / the result must hold "
+                    f"{want}, observed {got}", "observed": got, "expected": want}
 
 
 def node_hits(corr, q):
@@ -1926,7 +2507,10 @@ def correspond(ctx):
     if state["nbad"] > 8:
         corr.notes.append(f"{state['nbad']} disagreements in total; first 8 listed")
     molrec_checks(ctx, corr)
+    molrec_align_checks(ctx, corr)
     sequence_checks(ctx, corr)
+    model_history_checks(ctx, corr)          # the two streams that call the models' serialisation API run last, in this order
+    dict_kwargs_checks(ctx, corr)
     for k, v in sorted(ORACLE_STATS.items()):
         corr.hit(k, v)
     ORACLE_STATS.clear()
@@ -1937,6 +2521,15 @@ def correspond(ctx):
 def search(ctx, corr, reasons):
     found = []
     for d in corr.disagreements:
+        if "dict_kwargs" in d["case"]:
+            try:
+                bad = fresh_run(None, None, req={"dict_kwargs": d["case"]["dict_kwargs"]})      # alone, in a new interpreter
+            except Exception as ex:  # noqa
+                ctx.log("search: " + str(ex)[-300:])
+                bad = None
+            if bad and not any(f["stream"] == "dict-kwargs" for f in found):
+                found.append(bad)
+            continue
         q = d["case"]["query"]
         out, bad = judge_case(q, True, ctx.rng)
         if bad:
@@ -1952,6 +2545,25 @@ def replay(ctx, rp):
         expect, got, untouched = molrec_case(m["changes"], m["forgive"], tuple(m["variant"]))
         return {"molrecs": m, "expected": expect, "implementation": str(got), "inputs_untouched": untouched,
                 "fails": (got is not expect) or not untouched}
+    if "dict_kwargs" in case:
+        bad = dict_kwargs_failure(case["dict_kwargs"])
+        return {"dict_kwargs": case["dict_kwargs"], "failure": (bad or {}).get("what"), "fails": bool(bad)}
+    if "molrecs_align" in case:
+        m = case["molrecs_align"]
+        expect, got = molrec_align_case(m)
+        return {"molrecs_align": m, "expected": expect, "implementation": str(got), "fails": got is not expect}
+    if "model_history" in case:
+        rec = case["model_history"]
+        outs, tags = history_case_run(rec)
+        try:
+            base = fresh_run([rec], False)[0]
+        except Exception:  # noqa
+            base = None
+        bad = history_failure(rec, outs, base)
+        return {"model_history": rec, "history_calls": tags, "outcomes_after_history": outs, "outcomes_in_a_fresh_interpreter": base,
+                "required": [probe_want(p) for p in rec["probes"]], "failure": (_history_text(rec, bad[0]) + ": " + bad[1]) if bad else None,
+                "shared_exclude_set_afterwards": outs[-1][1],
+                "fails": bool(bad)}
     if "sequence" in case:
         qs = case["sequence"]
         outs, variants = sequence_run(qs, variants=case["variants"])
@@ -1965,10 +2577,15 @@ def replay(ctx, rp):
 
 
 # ------------------------------------------------------------------------------------------------------
-# known findings: none open (C19-complex-scalar-mismatch, C19-complex-computed-imag-dropped, C19-npbool-leaf were repaired by
+# known findings: C19-molrecs-align-fixed-frame-early-return (open); closed: (C19-complex-scalar-mismatch, C19-complex-computed-imag-dropped, C19-npbool-leaf were repaired by
 # 4bd9561 and f568480; their failing inputs stay in corpus())
 
-KNOWN = {}
+def _known_align_early_return(f):
+    m = (f.get("case") or {}).get("molrecs_align")
+    return bool(m) and m["fix"] in ("com", "orientation") and bool(m["change"]) and m["pert"] == 0 and str(f.get("observed")) == "True"
+
+
+KNOWN = {"C19-molrecs-align-fixed-frame-early-return": _known_align_early_return}
 
 TRUSTED = [
     "hand-written model coq/Model/Compare.v of testing.py (compare_values, compare, _compare_recursive, compare_recursive, "
@@ -1979,7 +2596,10 @@ TRUSTED = [
     "taken from the running Python/numpy, the keywords of the inner calls, np.isclose's operand order and keywords (first try and "
     "phase retry), node-name / entry-normalisation / match-test expressions, the atol >= 1 refusal, the verdict expression and the "
     "(return_message, quiet) order at every return site, massage_dicts' keys and compare_molrecs' forwarded keywords, "
-    "ProtoModel.compare's forwarding call; the statements it only checks textually (casts, shape test, removal-loop skeleton, "
+    "ProtoModel.compare's forwarding call, ProtoModel.dict's statements (the exclude expression is translated structurally: "
+    "`|` builds a new set; any in-place statement or mutating method call is refused), ProtoModel.Config's defaults, serialize's "
+    "`if option: kwargs[option] = option` blocks and json's forwarding call, and that no other file of the package names "
+    "serialize_default_excludes; the statements it only checks textually (casts, shape test, removal-loop skeleton, "
     "message-only blocks) are trusted to mean what the model says; Proofs/CompareGlue.v proves generated = hand model for all inputs",
     "PrimFloat kernel primitives = IEEE-754 binary64 as used by CPython/numpy (add, sub, mul, abs, leb, eqb, sqrt, of_uint63)",
     "numpy array construction (shape discovery, dtype inference, casting), elementwise ==, unary minus and np.isclose's formula are "
@@ -1987,8 +2607,10 @@ TRUSTED = [
     "are axis-aligned at the edge (exact) or judged when at least 2^-46 (relative) away from it; generated down to 2^-44)",
     "message texts are not modelled (only which error names exist); sorted() in the forgive loops is modelled as list order",
     "compare_molrecs' normalisation (massage_dicts) is modelled and compared through vm_compute (stream molrecs-model) for str "
-    "fragment_files, None/bool/int fragment_separators, dict provenance and integer-atom bonds; copy.deepcopy and pydantic .dict() "
-    "(ProtoModel.compare: a model is represented by the tree of its dict) are trusted; relative_geoms='align' is not covered",
+    "fragment_files, None/bool/int fragment_separators, dict provenance and integer-atom bonds; copy.deepcopy and pydantic's "
+    "BaseModel.dict (field selection by exclude / exclude_unset at top level is modelled in Model/ModelDict.v base_dict and observed by "
+    "stream dict-kwargs; nested conversion, aliases and encoders are trusted; a model is represented by the tree of its dict) are "
+    "trusted; relative_geoms='align' is not covered",
     "the Python oracle (spec_values/spec_compare/spec_rec in this file)",
 ]
 ASSUMPTIONS = [
@@ -2035,7 +2657,12 @@ LEVEL_TEXT = (
     "the running numpy's subclass facts, selects for the node's type; floating-dtype ndarrays through compare_values, others through "
     "compare), C19_glue_tuple_as_list, C19_glue_leaf_options, C19_glue_isclose_calls (np.isclose(computed, expected, rtol, atol, "
     "equal_nan), retry on -computed), C19_glue_matching (entry normalisation, match test, atol >= 1), C19_glue_compare_recursive, "
-    "C19_glue_child_names, C19_glue_return_sites, C19_glue_molrecs. "
+    "C19_glue_child_names, C19_glue_return_sites, C19_glue_molrecs. Wave 4 (Model/ModelDict.v: ProtoModel.dict / serialize / json "
+    "with the class-level exclude set shared by every model class as explicit state): C19_dict_leaves_shared_config (any history of "
+    "conversions, any classes and keywords, leaves the shared set unchanged), C19_dict_exclude_spec (a name is excluded from one "
+    "conversion iff that call names it or the shared set holds it), C19_model_compare_history_free (Model.compare after any history = "
+    "comparison of all fields / all set fields for skip-defaults classes), C19_model_no_false_pass_after_history, C19_glue_model_dict "
+    "(ProtoModel.dict's statements, Config defaults and serialize's forwarding as generated from basemodels.py = hand model). "
     "The model is tied to testing.py on every run by bit-exact differential execution through vm_compute (floats cross as hex "
     "literals): tolerance-edge perturbations built with nextafter over atol 1e-12..1e-1 x rtol x flags x dtypes x shapes 0-3d, "
     "non-finite values, uncastable/ragged inputs, complex data, exact comparison, nested structures of depth <= 4 with perturbed "
@@ -2044,7 +2671,12 @@ LEVEL_TEXT = (
     "(signature defaults), the full flag products, the isinstance ladder type by type, non-tolerance boundaries (atol >= 1 refusal, "
     "unusable tolerances, empty containers and keys, entries naming the root), one object passed as both arguments, sequences of calls "
     "with changing options on one pair of live objects (verdict independent of earlier calls) and a check on every call that the "
-    "caller's objects are unchanged; an independent Python specification judges the "
+    "caller's objects are unchanged; ProtoModel.dict's keywords as they reach pydantic, the class-level set afterwards and the "
+    "keys of the result for classes with every Config flag combination (stream dict-kwargs, model = Model/ModelDict.v); histories of "
+    "dict / json / serialize / copy / compare / parse / schema calls with include / exclude / skip options on models of seven schema "
+    "classes and free-form models, followed by comparisons of models that differ exactly in a named field, in another field, or not at "
+    "all (stream model-history: judged by the property and against the same comparisons in a fresh interpreter; the shared "
+    "configuration is inspected after every history); an independent Python specification judges the "
     "implementation's verdicts and yields the replays; compare_molrecs' normalisation is judged on the implementation.")
 LEVEL_NOTE = (
     "Clause map: S1 numeric rule -> C19_compare_values_spec/_false_spec/_total/_raise_spec/_raises_only/_no_phase_spec, "
@@ -2053,7 +2685,8 @@ LEVEL_NOTE = (
     "C19_nan_only_on_request. S2 exact rule -> C19_compare_spec/_false_spec/_never_raises. S3 recursion -> "
     "C19_recursive_errors_are_failing_sites, C19_recursive_spec(_sites), C19_no_false_pass/_fail, C19_glue_ladder (leaf rule per type), "
     "forgive: C19_forgive_key_boundary/_by_segments/_descends, C19_glue_matching; compare_molrecs: C19_molrecs_* (exact mode only), "
-    "Model.compare: C19_protomodel_compare. S4 options -> C19_options_inert(_molrecs), C19_handler_receives_verdict(_molrecs), "
+    "Model.compare: C19_protomodel_compare, and independent of earlier model-to-dict conversions: C19_model_compare_history_free, "
+    "C19_model_no_false_pass_after_history, C19_dict_leaves_shared_config, C19_dict_exclude_spec, C19_glue_model_dict. S4 options -> C19_options_inert(_molrecs), C19_handler_receives_verdict(_molrecs), "
     "C19_glue_return_sites, C19_public_verdicts. "
     "Trusted: Coq kernel + vm_compute incl. its IEEE-754 binary64 primitives (listed by Print Assumptions as PrimFloat/PrimInt63 "
     "constants; no FloatAxioms except under the four theorems named below, no declared axiom); the hand-written model (its glue is "
@@ -2070,6 +2703,6 @@ LEVEL_NOTE = (
     "equal_phase excuses a site when no error of the same NAME remains in the flipped run (as the code does); names are unique per "
     "site when keys have no dots, which is assumed by the segment reading only. compare_molrecs is modelled in exact mode only "
     "(relative_geoms='align' is not covered; bonds are sorted on the first atom only, as the code does, so two bonds sharing their "
-    "first atom listed in a different order compare unequal); pydantic .dict() is trusted. The only exceptions compare_values can "
+    "first atom listed in a different order compare unequal); pydantic's BaseModel.dict is trusted (ProtoModel.dict's own keyword handling is generated and proved). The only exceptions compare_values can "
     "raise are those of an unusable atol (<= 0, NaN, infinite), which is outside the property's quantifier (modelled; the oracle "
     "abstains).")
